@@ -385,3 +385,44 @@ Proof.
   pose proof (map_range_stop_prog_correct sch h kk t r (fun _ _ => true) Hwf Hok Hl) as X. unfold run_maprange in X. rewrite X.
   cbn [step]. rewrite vp_cut_calls_all. apply vp_res_rel_refl.
 Qed.
+
+(* ================================================================== all at once *)
+Lemma vp_agrees_default sch h o : vp_canon_step sch h o = Some (step sch h o) -> vp_agrees sch h o.
+Proof. unfold vp_agrees. intros ->. apply vp_res_rel_refl. Qed.
+
+(* [view_prog_correct_stmt] is FALSE as stated, by the counterexample of AppendMutable ([vp_op_okb] asks nothing of its view) *)
+Lemma view_prog_correct_stmt_false : ~ view_prog_correct_stmt.
+Proof.
+  intro H. destruct list_appendmutable_prog_counterexample as [W [K [O N]]]. exact (N (H _ _ _ W K O)).
+Qed.
+
+(* true with the view of AppendMutable live (like the view of Len) *)
+Lemma view_prog_correct_partial : forall sch h o, wf sch = true -> rp_heap_okb sch h = true -> vp_op_okb h o = true ->
+  (forall v, o = OLAppendMutable v -> view_liveb h v = true) -> vp_agrees sch h o.
+Proof.
+  intros sch h o Hwf Hok Hop Ham.
+  destruct o; try (apply vp_agrees_default; reflexivity);
+    destruct r; try (apply vp_agrees_default; reflexivity); cbn [vp_op_okb] in Hop;
+    first
+      [ apply list_isvalid_prog_correct; assumption
+      | apply map_isvalid_prog_correct; assumption
+      | apply list_len_prog_correct; assumption
+      | apply list_get_prog_correct; assumption
+      | apply list_set_prog_correct; assumption
+      | apply list_append_prog_correct; assumption
+      | apply list_appendmutable_prog_partial; [assumption|assumption|apply Ham; reflexivity]
+      | apply list_truncate_prog_correct; assumption
+      | apply list_newelement_prog_correct; assumption
+      | apply map_len_prog_correct; assumption
+      | apply map_range_prog_correct; assumption
+      | apply map_has_prog_correct; assumption
+      | apply map_clear_prog_correct; assumption
+      | apply map_get_prog_correct; assumption
+      | apply map_set_prog_correct; assumption
+      | apply map_mutable_prog_correct; assumption
+      | apply map_newvalue_prog_correct; assumption ].
+Qed.
+
+(* ================================================================== the canonical wrapper of a field *)
+Lemma canon_view_correct : canon_view_stmt.
+Proof. intros sch mid f fd F. unfold canon_view. rewrite F. reflexivity. Qed.
